@@ -16,9 +16,9 @@ func init() {
 }
 
 type dialA struct {
-	c                        *Ctx
+	c                          *Ctx
 	dial, genKey, accept, tlcv *ssa.Function
-	readResp, genCall        *ssa.Call
+	readResp, genCall          *ssa.Call
 }
 
 func newDialA(c *Ctx) *dialA {
